@@ -209,3 +209,9 @@ mod tests {
         assert_eq!(err.reason(), Some(Reason::HTTP_1_1_REQUIRED));
     }
 }
+
+#[cfg(feature = "verif")]
+#[allow(missing_docs, dead_code, unused_imports)]
+pub(crate) mod verif_h {
+    include!(concat!(env!("H2_VERIF_DIR"), "/harness/error.rs"));
+}
